@@ -29,9 +29,11 @@ type c26Fn struct {
 type c26Ctx struct {
 	funcs    map[string]c26Fn
 	validFn  bool // isValidSwampName has the expected definition
+	validLen bool // … including the length bound (65535 bytes) in front of the structural test
 	badKeyFn bool // isValidKey exists but is not the expected definition
 	clampsFrom   Tri // swamp.GetTreasuresByBeacon clamps a negative `from`
 	writerRefuses Tri // v2.FileWriter.WriteEntry refuses empty / over-long keys
+	writerRefusesName Tri // v2.FileWriter.createNewFile refuses a swamp name longer than 65535 bytes
 	notes    []string
 	respType map[string]int // response message -> number of fields (-1 unknown)
 }
@@ -185,6 +187,9 @@ func (e *c26Env) isNameExpr(x ast.Expr) bool {
 	return false
 }
 
+// isValidSwampName includes the length bound (set before any program is scanned)
+var c26ValidLen = false
+
 func (e *c26Env) cond(x ast.Expr) (string, bool) {
 	switch v := x.(type) {
 	case *ast.ParenExpr:
@@ -206,6 +211,10 @@ func (e *c26Env) cond(x ast.Expr) (string, bool) {
 				}
 			}
 			if c, ok := v.X.(*ast.CallExpr); ok && e.f.Str(c.Fun) == "isValidSwampName" && len(c.Args) == 1 && e.isNameExpr(c.Args[0]) {
+				if c26ValidLen {
+					// Go evaluates the length bound first, then the structure
+					return "or nameLong nameInvalid", true
+				}
 				return "nameInvalid", true
 			}
 			if c, ok := v.X.(*ast.CallExpr); ok && e.f.Str(c.Fun) == "isValidKey" && len(c.Args) == 1 {
@@ -1153,6 +1162,16 @@ done:
 			// SummonSwamp creates the swamp it is asked for: a reader must know that it exists
 			needs = append(needs, "need notExist missingswamp")
 		}
+		if strings.Contains(srcAll, ".SummonSwamp(") && c26Writes.MatchString(srcAll) {
+			// a swamp whose name the V2 file header cannot carry never gets a writer: every acknowledged write is dropped
+			switch cx.writerRefusesName {
+			case Yes:
+				needs = append(needs, "need nameLong name65k")
+			case Unknown:
+				needs = append(needs, "unknown")
+				h.why = append(h.why, "v2 createNewFile: treatment of an over-long swamp name not recognised")
+			}
+		}
 		if regexp.MustCompile(`\.(CreateTreasure|Increment\w+|PatchFields)\(`).MatchString(srcAll) {
 			switch cx.writerRefuses {
 			case Yes:
@@ -1160,6 +1179,62 @@ done:
 			case Unknown:
 				needs = append(needs, "unknown")
 				h.why = append(h.why, "v2 WriteEntry: treatment of empty / over-long keys not recognised")
+			}
+		}
+		// Lock: which context does the locker wait on?  The caller's (or one derived from it): the wait ends with the
+		// caller's deadline.  One detached from it (context.WithoutCancel / Background / TODO): a request for a held
+		// key cannot be ended by its caller.
+		if fd.Name.Name == "Lock" {
+			ctxPar := ""
+			for _, fld := range fd.Type.Params.List {
+				if f.Str(fld.Type) == "context.Context" && len(fld.Names) == 1 {
+					ctxPar = fld.Names[0].Name
+				}
+			}
+			verdict := Unknown
+			var calls []*ast.CallExpr
+			ast.Inspect(fd.Body, func(n ast.Node) bool {
+				if c, ok := n.(*ast.CallExpr); ok && strings.HasSuffix(f.Str(c.Fun), ".Lock") && len(c.Args) == 3 {
+					calls = append(calls, c)
+				}
+				return true
+			})
+			if len(calls) == 1 && ctxPar != "" && ctxPar != "_" {
+				arg := f.Str(calls[0].Args[0])
+				def := ""
+				nAssign := 0
+				ast.Inspect(fd.Body, func(n ast.Node) bool {
+					if as, ok := n.(*ast.AssignStmt); ok {
+						for i, l := range as.Lhs {
+							if f.Str(l) == arg {
+								nAssign++
+								if len(as.Rhs) == len(as.Lhs) {
+									def = f.Str(as.Rhs[i])
+								} else if len(as.Rhs) == 1 {
+									def = f.Str(as.Rhs[0])
+								}
+							}
+						}
+					}
+					return true
+				})
+				switch {
+				case arg == ctxPar && nAssign == 0:
+					verdict = Yes
+				case nAssign == 1 && def == ctxPar:
+					verdict = Yes
+				case nAssign == 1 && regexp.MustCompile(`^context\.With(Timeout|Deadline|Cancel|Value)\(`+regexp.QuoteMeta(ctxPar)+`\b`).MatchString(def):
+					verdict = Yes
+				case nAssign == 1 && (def == "context.WithoutCancel("+ctxPar+")" || def == "context.Background()" || def == "context.TODO()"):
+					verdict = No
+				}
+			}
+			switch verdict {
+			case No:
+				needs = append(needs, "need lockHeld ctxignored")
+			case Unknown:
+				needs = append(needs, "unknown")
+				h.why = append(h.why, "Lock: the context handed to the locker not recognised")
 			}
 		}
 		h.main = append(append(append([]string{}, h.main[:n-1]...), needs...), "body")
@@ -1377,7 +1452,14 @@ func init() {
 		if vf, ok := cx.funcs["isValidSwampName"]; ok {
 			b := vf.f.Str(vf.fd.Body)
 			want := `{ parts := strings.Split(swampName, "/") return len(parts) == 3 && parts[0] != "" && parts[1] != "" && parts[2] != "" }`
-			cx.validFn = strings.Join(strings.Fields(b), " ") == want
+			// with the length bound in front (a name the V2 file header cannot carry is not a valid name)
+			wantL := `{ if len(swampName) > maxSwampNameLength { return false } parts := strings.Split(swampName, "/") return len(parts) == 3 && parts[0] != "" && parts[1] != "" && parts[2] != "" }`
+			got := strings.Join(strings.Fields(b), " ")
+			cx.validFn = got == want
+			if got == wantL && strings.Contains(string(vf.f.Src), "const maxSwampNameLength = 65535") {
+				cx.validFn, cx.validLen = true, true
+				c26ValidLen = true
+			}
 			if !cx.validFn {
 				fs.Err("isValidSwampName has an unexpected definition: %s", c26Short(b))
 				delete(cx.funcs, "isValidSwampName")
@@ -1433,7 +1515,10 @@ func init() {
 		// engine facts
 		if sf, err := Load("app/core/hydra/swamp/swamp.go"); err == nil {
 			if fd := sf.Func("swamp", "GetTreasuresByBeacon"); fd != nil {
-				cx.clampsFrom = No
+				// No only when the function never looks at the sign of `from`; any other treatment than the clamp is not recognised
+				if !regexp.MustCompile(`\bfrom\s*(<|<=|>=|>)\s*-?[01]\b`).MatchString(sf.Str(fd.Body)) {
+					cx.clampsFrom = No
+				}
 				for _, st := range fd.Body.List {
 					if ifs, ok := st.(*ast.IfStmt); ok && sf.Str(ifs.Cond) == "from < 0" && len(ifs.Body.List) == 1 && sf.Str(ifs.Body.List[0]) == "from = 0" {
 						cx.clampsFrom = Yes
@@ -1451,6 +1536,19 @@ func init() {
 					cx.writerRefuses = Yes
 				} else if !strings.Contains(txt, "len(entry.Key)") && !strings.Contains(txt, "validateEntry(") {
 					cx.writerRefuses = No
+				}
+			}
+		}
+
+		if wf, err := Load("app/core/hydra/swamp/chronicler/v2/writer.go"); err == nil {
+			if fd := wf.Func("FileWriter", "createNewFile"); fd != nil {
+				txt := wf.Str(fd.Body)
+				switch {
+				case regexp.MustCompile(`if len\(nameBytes\) > math\.MaxUint16 \{\s*return ErrNameTooLong\s*\}`).MatchString(txt) &&
+					strings.Index(txt, "ErrNameTooLong") < strings.Index(txt, "os.Create("):
+					cx.writerRefusesName = Yes
+				case !strings.Contains(txt, "len(nameBytes) >") && !strings.Contains(txt, "ErrNameTooLong"):
+					cx.writerRefusesName = No
 				}
 			}
 		}
